@@ -133,7 +133,7 @@ DecompCases ==
         LAMBDA x : [g |-> "decomposition", n |-> w, x |-> x, expect |-> DecompRel(w, x),
                     ops |-> P1(x, [op |-> "decomposition", w |-> "x", n |-> w, out |-> "bits"])])))
   \o (IF Quick THEN Flat(Map(Tail(Upto(256)), LAMBDA w : Map(<< BigLow(Rnd(w), w) >>,
-        LAMBDA x : [g |-> "decomposition", n |-> w, x |-> x, expect |-> DecompRel(w, x),
+        LAMBDA x : [g |-> "decomposition", n |-> w, x |-> x, every |-> TRUE, expect |-> DecompRel(w, x),
                     ops |-> P1(x, [op |-> "decomposition", w |-> "x", n |-> w, out |-> "bits"])]))) ELSE << >>)
 RangeEveryWidth ==
   IF Quick THEN Flat(Map(Upto(256), LAMBDA w : Map(Straddle(w),
@@ -144,7 +144,7 @@ TruncCases ==
         LAMBDA x : [g |-> "truncate", n |-> w, x |-> x, expect |-> TruncRel(w, x),
                     ops |-> P1(x, [op |-> "truncate", w |-> "x", n |-> w, out |-> "t"])])))
   \o (IF Quick THEN Flat(Map(Upto(254), LAMBDA w : Map(<< Rnd(w + 300) >>,
-        LAMBDA x : [g |-> "truncate", n |-> w, x |-> x, expect |-> TruncRel(w, x),
+        LAMBDA x : [g |-> "truncate", n |-> w, x |-> x, every |-> TRUE, expect |-> TruncRel(w, x),
                     ops |-> P1(x, [op |-> "truncate", w |-> "x", n |-> w, out |-> "t"])]))) ELSE << >>)
 LogicVals(p) == << <<M1, M1>>, <<Rnd(p), Rnd(p + 1)>>, <<BSub(P2(2 * p), One), Rnd(p)>>,
                    <<Rnd(5), BAdd(Rnd(5), P2(IF 2 * p < 254 THEN 2 * p ELSE 0))>>, <<Zero, M1>> >>
@@ -154,7 +154,7 @@ LogicCases ==
                     expect |-> LogicRel(p, o, v[1], v[2]),
                     ops |-> P2w(v[1], v[2], [op |-> "logic", a |-> "x", b |-> "y", pairs |-> p, xor |-> o, out |-> "o"])])))))
   \o (IF Quick THEN Flat(Map(Upto(127), LAMBDA p : Map(<<TRUE, FALSE>>,
-        LAMBDA o : [g |-> "logic", n |-> p, xor |-> o, x |-> Rnd(p + 500), y |-> Rnd(p + 700),
+        LAMBDA o : [g |-> "logic", n |-> p, xor |-> o, x |-> Rnd(p + 500), y |-> Rnd(p + 700), every |-> TRUE,
                     expect |-> LogicRel(p, o, Rnd(p + 500), Rnd(p + 700)),
                     ops |-> P2w(Rnd(p + 500), Rnd(p + 700),
                                 [op |-> "logic", a |-> "x", b |-> "y", pairs |-> p, xor |-> o, out |-> "o"])]))) ELSE << >>)
